@@ -32,7 +32,7 @@ package dns
 //@   exit timers: ret1 == nil && timersOnly ==> len(tsigvar) == 8
 
 // stripTsig never indexes outside the message and hands back a prefix of it
-//@ func stripTsig [C11 C02:decr]
+//@ func stripTsig [C11 C02:dec]
 //@   ensures some: ret2 == nil ==> ret1 != nil
 // success means a TSIG record was found among the additional records (a message without one is ErrNoSig), and the
 // walk over the additional section consumes input at every step, whatever ARCOUNT claims
